@@ -9,7 +9,9 @@ Local Open Scope N_scope.
 Inductive sk := Fan (k : N) | Limit (k : N) | Count | Exactly (m : N).
 Record c07_case := {
   c_scan : N; c_stages : list sk; c_cancel : option N;
-  o_closed : bool; o_rows : N; o_leak : N; o_tmp : N }.
+  o_closed : bool; o_rows : N; o_leak : N; o_tmp : N;
+  o_nexts : N;                 (* cursor advances on the store during the run *)
+  c_next_bound : option N }.   (* what a run that stops when its limit is satisfied may advance at most *)
 
 (* rows delivered: pipe_fun with every row of a Fan step yielding k rows (lemma C07_expect_is_pipe_fun) *)
 Definition expect1 (n : N) (s : sk) : N :=
@@ -22,8 +24,11 @@ Definition agrees (c : c07_case) : bool :=
   | None => o_rows c =? expect c
   | Some _ => o_rows c <=? expect c
   end.
-(* the property on the observation: the stream closes; afterwards no goroutine and no temporary entry is left *)
-Definition spec_ok (c : c07_case) : bool := o_closed c && (o_leak c =? 0) && (o_tmp c =? 0).
+(* the property on the observation: the stream closes; afterwards no goroutine and no temporary entry is left; a
+   satisfied limit stops the scan behind it (it does not read the rest of the graph) *)
+Definition spec_ok (c : c07_case) : bool :=
+  o_closed c && (o_leak c =? 0) && (o_tmp c =? 0) &&
+  match c_next_bound c with Some b => o_nexts c <=? b | None => true end.
 
 Fixpoint idx_filter {A} (f : A -> bool) (l : list A) (i : nat) : list nat :=
   match l with [] => [] | x :: r => if f x then i :: idx_filter f r (S i) else idx_filter f r (S i) end.
